@@ -119,7 +119,7 @@ package merkledag
 //@ spec cidHash(c cid.Cid) mh.Multihash
 //@ func ext (github.com/ipfs/go-cid.Cid).Hash
 //@   ensures result == cidHash(c)
-//@ func iface github.com/ipfs/boxo/provider.MultihashProvider.StartProviding
+// (MultihashProvider.StartProviding: declared in provider, the owner of the interface)
 
 // sequential walker: the error handler and the provider receive the CID whose links were
 // just requested; children are walked one level deeper; the root is skipped only at depth 0
